@@ -602,9 +602,9 @@ class Interp:
             ev(name, idx, 'iter_end', cnt)
         elif op in ('qclose', 'cclose'):
             s = (self.queues if op == 'qclose' else self.channels)[st['s']]
-            ev(name, idx, 'close_begin')
+            ev(name, idx, 'close_begin', bool(s.closed))       # (the public `closed` property, before and after)
             await s.close()
-            ev(name, idx, 'close_ok')
+            ev(name, idx, 'close_ok', bool(s.closed))
         # --- resources
         elif op in ('borrow', 'claim'):
             src = self.handles.get(st['from']) if st.get('from') else self.resources[st['r']]
